@@ -412,3 +412,16 @@ theorem sort_idempotent (T : Tables) (hal : ∀ c ∈ T.stringAlphabet, lowerC c
   sort_canonical T hal b (sortBy_perm _ l) (fun r hr => hD r ((sortBy_perm _ l).subset hr))
 
 end Aa
+
+namespace Aa
+
+theorem domS_iff (T : Tables) (b : Bool) (r : Rule) : DomS T b r ↔
+    (Dom10 T.stringAlphabet r ∧ r.kind ∈ T.ruleAlphabet ∧
+     (r.comment = [] ∧ r.noNewPrivs = false ∧ r.fileInherit = false ∧ r.optional = false) ∧
+     (r.kind = "include" → (r.fld 0).bool = false) ∧
+     (r.kind = "file" → (letterIn T.fileAlphabet (r.fld 1).str).isEmpty = !b)) :=
+  ⟨fun h => ⟨h.dom, h.weighted, h.plain, h.noIfExists, h.pre⟩, fun ⟨a, b, c, d, e⟩ => ⟨a, b, c, d, e⟩⟩
+
+instance (T : Tables) (b : Bool) (r : Rule) : Decidable (DomS T b r) := decidable_of_iff _ (domS_iff T b r).symm
+
+end Aa
